@@ -10,7 +10,7 @@ one contract with all invariants gave obligations with ~50 quantified hypotheses
   #source    every anchor in marks[N-1] is an anchor of THAT glyph
   #count     len(marks) == the largest component number among the glyph's counted anchors (gaps stay as empty components)
 """
-from pyvc.api import CONTRACTS, INT, STR, Dict, List, Loop, Ref, Runtime, contract
+from pyvc.api import CONTRACTS, INT, STR, Dict, List, Loop, Ref, Runtime, Set, contract
 
 from . import c06rt
 from .c06 import AL, KEYS, MARK2LIGA, NA, W, _ALL_ANCHORS, _at, _counted, _liga_glyph, _named
@@ -115,11 +115,19 @@ contract(
 )
 
 # ---------------------------------------------------------------------------------------------------------------------
-# marks[N-1] holds only anchors OF THAT GLYPH
-_CA_SRC = "all(all(any(componentAnchors[n][m] == anchors[b] for b in range({j})) for m in range(len(componentAnchors[n]))) for n in componentAnchors)"
-_LM_SRC = "all(all(any(ligatureMarks[n][m] == anchors[b] for b in range(len(anchors))) for m in range(len(ligatureMarks[n]))) for n in range(len(ligatureMarks)))"
+# marks[N-1] holds only anchors OF THAT GLYPH.  Ghost `seen`: the set of anchor objects put into componentAnchors for the current
+# glyph; `seens[k]`: that set for the glyph of result[k].  The existential ("is anchors[b] for some b") is stated once, about the flat
+# set, instead of under three nested quantifiers over the nested lists.
+SET_NA = Set(NA)
+_CA_SEEN = "all(all(componentAnchors[n][m] in seen for m in range(len(componentAnchors[n]))) for n in componentAnchors)"
+_SEEN_SRC = "all(any(anchors[b] == x for b in range({j})) for x in seen)"
+_LM_SEEN = "all(all(ligatureMarks[n][m] in seen for m in range(len(ligatureMarks[n]))) for n in range(len(ligatureMarks)))"
 _RES_SRC = (f"all(result[k].name in {AL} and all(all(any(result[k].marks[n][m] == {AL}[result[k].name][b] for b in range(len({AL}[result[k].name])))"
             " for m in range(len(result[k].marks[n]))) for n in range(len(result[k].marks))) for k in range(len(result)))")
+_FRAME = [
+    "all(implies(n != number, n in componentAnchors and componentAnchors[n] == ca0[n]) for n in ca0)",
+    "all(n in ca0 or n == number for n in componentAnchors)",
+]
 
 contract(
     FN,
@@ -127,39 +135,69 @@ contract(
     **COMMON,
     ensures={"component-anchors-are-anchors-of-that-glyph": _RES_SRC},
     canaries={"never-empty": "len(result) > 0"},
-    locals={**LOCALS, "r0": List(MARK2LIGA), "ca0": Dict(INT, List(NA))},
-    ghost_vars={**_R0, "ca0": (Dict(INT, List(NA)), "{}")},
-    ghost={**_R0_GHOST, "number = anchor.number": ["ca0 = {**componentAnchors}"]},
+    locals={**LOCALS, "r0": List(MARK2LIGA), "ca0": Dict(INT, List(NA)), "seen": SET_NA, "seens": List(SET_NA)},
+    ghost_vars={**_R0, "ca0": (Dict(INT, List(NA)), "{}"), "seen": (SET_NA, "set()"), "seens": (List(SET_NA), "[]")},
+    ghost={**_R0_GHOST, "number = anchor.number": ["ca0 = {**componentAnchors}"], "componentAnchors = {}": ["seen = set()"],
+           SETAPP: ["seen.add(anchor)"], APPEND: ["seens = seens + [seen]"]},
     hints={
         APPEND: _APPENDED,
-        SETAPP: [
-            "all(implies(n != number, n in componentAnchors and componentAnchors[n] == ca0[n]) for n in ca0)",
-            "all(n in ca0 or n == number for n in componentAnchors)",
+        SETAPP: _FRAME + [
             "(number + 0) in componentAnchors and componentAnchors[number] == (ca0[number] if (number + 0) in ca0 else []) + [anchor]",
             "implies((number + 0) not in ca0, len(componentAnchors[number]) == 1 and componentAnchors[number][0] == anchor)",
             "implies((number + 0) in ca0, len(componentAnchors[number]) == len(ca0[number]) + 1)",
             "implies((number + 0) in ca0, componentAnchors[number][len(ca0[number])] == anchor)",
             "implies((number + 0) in ca0, all(componentAnchors[number][m] == ca0[number][m] for m in range(len(ca0[number]))))",
-            "implies((number + 0) not in ca0, all(any(componentAnchors[number][m] == anchors[b] for b in range(j + 1)) for m in range(len(componentAnchors[number]))))",
-            "implies((number + 0) in ca0, all(any(componentAnchors[number][m] == anchors[b] for b in range(j + 1)) for m in range(len(ca0[number]))))",
-            "implies((number + 0) in ca0, any(componentAnchors[number][len(ca0[number])] == anchors[b] for b in range(j + 1)))",
-            "all(any(componentAnchors[number][m] == anchors[b] for b in range(j + 1)) for m in range(len(componentAnchors[number])))",
+            "all(componentAnchors[number][m] in seen for m in range(len(componentAnchors[number])))",
         ],
-        SETBARE: [
-            "all(implies(n != number, n in componentAnchors and componentAnchors[n] == ca0[n]) for n in ca0)",
-            "all(n in ca0 or n == number for n in componentAnchors)",
-            "(number + 0) in componentAnchors and len(componentAnchors[number]) == 0",
-        ],
-        "for number in range(1, max(componentAnchors.keys()) + 1):": [
-            "all(implies((n + 1) in componentAnchors, ligatureMarks[n] == componentAnchors[n + 1]) for n in range(len(ligatureMarks)))",
-            "all(implies((n + 1) not in componentAnchors, len(ligatureMarks[n]) == 0) for n in range(len(ligatureMarks)))",
-            "all(implies((n + 1) in componentAnchors, all(any(ligatureMarks[n][m] == anchors[b] for b in range(len(anchors))) for m in range(len(ligatureMarks[n])))) for n in range(len(ligatureMarks)))",
-            _LM_SRC],
+        SETBARE: _FRAME + ["(number + 0) in componentAnchors and len(componentAnchors[number]) == 0"],
+        "for number in range(1, max(componentAnchors.keys()) + 1):": [_LM_SEEN],
     },
     loops={
-        OUTER: Loop(index="i", invariants={"source": _RES_SRC}),
-        INNER: Loop(index="j", invariants={"elem-src": _CA_SRC.format(j="j")}),
+        OUTER: Loop(index="i", invariants={
+            "len": "len(seens) == len(result)",
+            "name": f"all(result[k].name in {AL} for k in range(len(result)))",
+            "in-seen": "all(all(all(result[k].marks[n][m] in seens[k] for m in range(len(result[k].marks[n]))) for n in range(len(result[k].marks))) for k in range(len(result)))",
+            "seen-source": f"all(all(any({AL}[result[k].name][b] == x for b in range(len({AL}[result[k].name]))) for x in seens[k]) for k in range(len(result)))",
+        }),
+        INNER: Loop(index="j", invariants={"in-seen": _CA_SEEN, "seen-source": _SEEN_SRC.format(j="j")}),
         FILL: Loop(index="t", invariants={"len": "len(ligatureMarks) == t", "filled": _FILLED}),
+    },
+    runtime=_RT,
+)
+
+# ---------------------------------------------------------------------------------------------------------------------
+# the component count is the largest component number among the glyph's counted anchors (missing numbers stay as empty components)
+_CNT_IN = "all(implies(" + _counted("anchors[b]") + ", (anchors[b].number + 0) in componentAnchors) for b in range(j))"
+_CNT_KEY = "all(n >= 1 and any(" + _counted("anchors[b]") + " and anchors[b].number == n for b in range({j})) for n in componentAnchors)"
+_G = f"{AL}[result[k].name]"
+_RES_COUNT = (f"all(result[k].name in {AL} and len(result[k].marks) >= 1 and all(implies({_counted(_G + '[b]')}, {_G}[b].number <= len(result[k].marks)) for b in range(len({_G})))"
+              f" and any({_counted(_G + '[b]')} and {_G}[b].number == len(result[k].marks) for b in range(len({_G}))) for k in range(len(result)))")
+
+contract(
+    FN,
+    name="count",
+    **COMMON,
+    ensures={"component-count-preserved": _RES_COUNT},
+    canaries={"never-empty": "len(result) > 0", "always-one-component": "all(len(result[k].marks) == 1 for k in range(len(result)))"},
+    locals={**LOCALS, "r0": List(MARK2LIGA), "ca0": Dict(INT, List(NA))},
+    ghost_vars={**_R0, "ca0": (Dict(INT, List(NA)), "{}")},
+    ghost={**_R0_GHOST, "number = anchor.number": ["ca0 = {**componentAnchors}"]},
+    hints={
+        APPEND: _APPENDED,
+        SETAPP: ["all(n in componentAnchors for n in ca0)", "all(n in ca0 or n == number for n in componentAnchors)", "(number + 0) in componentAnchors"],
+        SETBARE: ["all(n in componentAnchors for n in ca0)", "all(n in ca0 or n == number for n in componentAnchors)", "(number + 0) in componentAnchors"],
+        "for number in range(1, max(componentAnchors.keys()) + 1):": [
+            "len(ligatureMarks) == max(componentAnchors.keys())",
+            "len(ligatureMarks) in componentAnchors and all(n <= len(ligatureMarks) for n in componentAnchors)",
+            "len(ligatureMarks) >= 1",
+            "all(implies(" + _counted("anchors[b]") + ", anchors[b].number <= len(ligatureMarks)) for b in range(len(anchors)))",
+            "any(" + _counted("anchors[b]") + " and anchors[b].number == len(ligatureMarks) for b in range(len(anchors)))",
+        ],
+    },
+    loops={
+        OUTER: Loop(index="i", invariants={"count": _RES_COUNT}),
+        INNER: Loop(index="j", invariants={"counted-in": _CNT_IN, "key-witness": _CNT_KEY.format(j="j")}),
+        FILL: Loop(index="t", invariants={"len": "len(ligatureMarks) == t"}),
     },
     runtime=_RT,
 )
